@@ -12,7 +12,7 @@ Variable len : nat -> nat.
 Hypothesis WF : wf c len.
 
 Definition Closed2 (s : st) (v : nat) : Prop :=
-  (ct (ns s v) = CtDone -> forall y, In y (ins c v) -> clo (es s y) = true) /\
+  (ct (ns s v) = CtDone -> forall y, In y (ins c v) -> epar c y = false -> clo (es s y) = true) /\
   (forall todo, ct (ns s v) = CtRecv todo true -> forall y, In y (ins c v) -> ~ In y todo -> clo (es s y) = true).
 
 Definition Inv2 (s : st) : Prop := forall v, v < nn c -> Closed2 s v.
@@ -34,7 +34,7 @@ Proof.
   { intros v0 n' Hns Hclo Hnew w Hw. destruct (Nat.eq_dec w v0) as [->|Hne]; auto.
     destruct (H2 w Hw) as [A B]. unfold Closed2. rewrite Hns.
     destruct (Nat.eqb_spec w v0); [congruence|]. split.
-    - intros Hd y Hy. apply Hclo. apply A; auto.
+    - intros Hd y Hy Hf. apply Hclo. apply A; auto.
     - intros todo Hc y Hy Hn. apply Hclo. eapply B; eauto. }
   destruct a as [v perm|v|v|v|v i|v perm|v|v|v]; simpl in Hv, Hstep;
     pose proof (HN v Hv) as NI; unfold NodeInv in NI; destruct NI as [n1 n2 n3 n4 n5 n6 n7];
@@ -46,7 +46,7 @@ Proof.
       destruct (Nat.ltb (cN (ns s v)) L); inv_some;
         (eapply Hmono; [reflexivity|auto|]; split; simpl; unfold upd; rewrite Nat.eqb_refl; simpl;
          intros; try discriminate; rewrite Hins in *; simpl in *; tauto).
-    + destruct (is_perm perm (ins c v)); [|discriminate]. inv_some.
+    + destruct (is_perm perm (ins c v)); [|discriminate]. destruct (par_sorted c perm); [|discriminate]. cbn [andb] in *. inv_some.
       eapply Hmono; [reflexivity|auto|]. split; simpl; unfold upd; rewrite Nat.eqb_refl; simpl; intros; discriminate.
   - (* ARecv *)
     destruct (ct (ns s v)) as [|todo0 saw| |] eqn:Ct; try discriminate.
@@ -87,11 +87,15 @@ Proof.
         simpl in y2. rewrite Nat.eqb_refl in y2. simpl in y2. lia.
   - (* AEndRound *)
     destruct (ct (ns s v)) as [|todo0 saw| |] eqn:Ct; try discriminate.
-    destruct todo0; try discriminate. inv_some.
-    eapply Hmono with (v0 := v); [reflexivity|auto|].
+    destruct saw; [destruct (forallb (epar c) todo0) eqn:Hfa; try discriminate|destruct todo0; try discriminate];
+    cbn [andb] in *; inv_some;
+    (eapply Hmono with (v0 := v); [reflexivity|auto|]);
     split; simpl; unfold upd; rewrite Nat.eqb_refl; simpl.
-    + destruct saw; [|discriminate]. intros _ y Hy. eapply B; eauto.
-    + destruct saw; intros; discriminate.
+    + intros _ y Hy Hf. eapply B; eauto. intros Hin.
+      rewrite forallb_forall in Hfa. rewrite (Hfa y Hin) in Hf. discriminate.
+    + intros; discriminate.
+    + discriminate.
+    + intros; discriminate.
   - (* AHand *)
     destruct (ct (ns s v)) eqn:Ct; try discriminate. destruct (rn (ns s v)); try discriminate. inv_some.
     eapply Hmono with (v0 := v); [reflexivity|auto|].
@@ -127,14 +131,15 @@ Proof.
       intros _ y Hy. rewrite close_all_es. simpl. destruct (existsb _ _); simpl; auto.
 Qed.
 
-(* a finished node has only finished producers, and no task in flight *)
+(* a finished node has no task in flight, and the producers of its files -- the processes that execute tasks -- are
+   finished; the feeder of a parameter port need not be: createTasks stops reading parameters once a file port closed *)
 Theorem finished_upward s v : Inv c len s -> Inv2 s -> v < nn c -> rn (ns s v) = RFin ->
-  fl (ns s v) = [] /\ forall y, In y (ins c v) -> rn (ns s (esrc c y)) = RFin.
+  fl (ns s v) = [] /\ forall y, In y (ins c v) -> epar c y = false -> rn (ns s (esrc c y)) = RFin.
 Proof.
   intros [HN HE] H2 Hv Hf.
   pose proof (HN v Hv) as NI. unfold NodeInv in NI. destruct NI as [n1 n2 n3 n4 n5 n6 n7].
   destruct (n2 Hf) as [Hd [Hfl _]]. split; auto.
-  intros y Hy. destruct (H2 v Hv) as [A _]. specialize (A Hd y Hy).
+  intros y Hy Hfile. destruct (H2 v Hv) as [A _]. specialize (A Hd y Hy Hfile).
   apply in_ins in Hy. destruct Hy as [HyE _].
   pose proof (HE y HyE) as EY. unfold EdgeInv in EY. destruct EY as [_ _ _ y4]. apply y4. exact A.
 Qed.
